@@ -2,12 +2,13 @@
 // `ClientEvent::receive`, client trigger reception, `check_protocol`) - Bevy systems over `Query`/`World`/type-erased
 // pointers, outside both verifiers. A real server `App` (default authorization method: protocol check) with one AUTHORIZED
 // client (a real client `App`, handshake done) and one connected client that never authorizes receives EVERY byte string
-// of length 0..=VERIF_DEPTH (default 2) from each of the two clients on each registered client-to-server channel
+// of length 0..=2, and for VERIF_DEPTH > 2 every string up to that length over 16 boundary bytes of the variable-length
+// encodings, from each of the two clients on each registered client-to-server channel
 // (mutation acks, the protocol-hash trigger, a plain event, an event and a trigger that carry entities). Checked:
 //   P  `App::update` never panics, whatever was received;
 //   S  afterwards the server still serves: an entity spawned after the garbage reaches the authorized client intact.
-// Messages of maximal length are delivered in batches of 256 per frame (all last bytes for one prefix); when a batch
-// panics each of its messages is re-run alone in a fresh server to name the failing input.
+// Messages are delivered 256 per frame; when a frame panics each of its messages is re-run alone in a fresh server to name
+// the failing input.
 #[cfg(test)]
 mod verif_search_r {
     extern crate std;
@@ -123,7 +124,7 @@ mod verif_search_r {
             if let Some(why) = single(from_authorized, channel, &msg) { report(from_authorized, channel, &msg, &why); }
             return;
         }
-        let depth: usize = std::env::var("VERIF_DEPTH").ok().and_then(|d| d.parse().ok()).unwrap_or(2).clamp(1, 3);
+        let depth: usize = std::env::var("VERIF_DEPTH").ok().and_then(|d| d.parse().ok()).unwrap_or(2).clamp(1, 5);
         let channels = setup().channels;
         assert!(channels >= 5, "harness: expected acks + protocol hash + three registered client channels, found {channels}");
         // jobs: (client, channel) pairs, spread over the cores
@@ -143,36 +144,31 @@ mod verif_search_r {
                         if fb.as_ref().is_none_or(|(k, ..)| j < *k) { *fb = Some((j, msg, why)); }
                     };
                     let mut s = setup();
-                    // all strings shorter than `depth`: one per frame; strings of length `depth`: 256 per frame
-                    let mut prefixes: Vec<Vec<u8>> = std::vec![Vec::new()];
+                    // lengths 0..=2 exhaustively; longer ones over the 16 boundary bytes of the variable-length encodings
+                    const ALPHABET: [u8; 16] = [0x00, 0x01, 0x02, 0x03, 0x04, 0x05, 0x3f, 0x40, 0x7e, 0x7f, 0x80, 0x81, 0xbf, 0xc0, 0xfe, 0xff];
+                    let mut messages: Vec<Vec<u8>> = std::vec![Vec::new()];
+                    let mut level: Vec<Vec<u8>> = std::vec![Vec::new()];
+                    for len in 1..=depth {
+                        let bytes: Vec<u8> = if len <= 2 { (0..=255u8).collect() } else { ALPHABET.to_vec() };
+                        // longer strings extend the shorter ones that are made of alphabet bytes only
+                        let stems: Vec<&Vec<u8>> = level.iter().filter(|m| len <= 2 || m.iter().all(|b| ALPHABET.contains(b))).collect();
+                        let next_level: Vec<Vec<u8>> = stems.iter().flat_map(|m| bytes.iter().map(move |b| { let mut n = (*m).clone(); n.push(*b); n })).collect();
+                        messages.extend(next_level.iter().cloned());
+                        level = next_level;
+                    }
                     let mut failed = false;
-                    'lens: for len in 0..depth {
-                        let mut longer = Vec::new();
-                        for p in &prefixes {
-                            explored.fetch_add(1, std::sync::atomic::Ordering::Relaxed);
-                            if let Err(why) = feed(&mut s, from_authorized, channel, core::slice::from_ref(p)) {
-                                bad(p.clone(), format!("the server panicked in the frame that received the message: {why}"));
-                                failed = true;
-                                break 'lens;
+                    for batch in messages.chunks(256) {
+                        explored.fetch_add(batch.len(), std::sync::atomic::Ordering::Relaxed);
+                        if feed(&mut s, from_authorized, channel, batch).is_err() {
+                            for m in batch {
+                                if let Some(why) = single(from_authorized, channel, m) { bad(m.clone(), why); break; }
                             }
-                            let batch: Vec<Vec<u8>> = (0..=255u8).map(|b| { let mut m = p.clone(); m.push(b); m }).collect();
-                            if len + 1 == depth {
-                                explored.fetch_add(batch.len(), std::sync::atomic::Ordering::Relaxed);
-                                if feed(&mut s, from_authorized, channel, &batch).is_err() {
-                                    for m in &batch {
-                                        if let Some(why) = single(from_authorized, channel, m) { bad(m.clone(), why); break; }
-                                    }
-                                    if first_bad.lock().unwrap().as_ref().is_none_or(|(k, ..)| *k != j) {
-                                        bad(p.clone(), format!("a frame receiving the 256 messages {}XX panicked, but none of them does alone", hex(p)));
-                                    }
-                                    failed = true;
-                                    break 'lens;
-                                }
-                            } else {
-                                longer.extend(batch);
+                            if first_bad.lock().unwrap().as_ref().is_none_or(|(k, ..)| *k != j) {
+                                bad(batch[0].clone(), format!("a frame receiving the 256 messages starting at {} panicked, but none of them does alone", hex(&batch[0])));
                             }
+                            failed = true;
+                            break;
                         }
-                        prefixes = longer;
                     }
                     if !failed {
                         if let Some(why) = still_serving(&mut s, 1000 + j as u32) { bad(Vec::new(), format!("[after every message of this client and channel] {why}")); }
